@@ -188,7 +188,8 @@ def gen_cond_handle(w, kind, tag, R, Dy, Dx, ctor="Sigma+Lambda+ld", zeroM=False
 
     def control_func(uin):
         # M(u), b(u) are uninterpreted functions of the rows of u: atoms indexed by the batch of u
-        if uin is u:
+        if uin is u or (not w.symbolic and tuple(uin.shape) == tuple(u.shape)):
+            # (numeric world: also for a traced copy of u under jax.jit)
             Mflat = xp.reshape(Mu, (Mu.shape[0], dy * dx))
             return xp.concatenate([Mflat, bu], axis=1)
         return xp.zeros((uin.shape[0], dy * dx + dy))
